@@ -168,3 +168,124 @@ pub fn enumerate_symver(n: usize, seed: u64) -> Vec<SymverCase> {
     }
     out
 }
+
+// ------------------------------------------------------------------------------------------------ C11 / C12
+#[derive(Clone, Debug)]
+pub struct HashCase { pub names: Vec<Vec<u8>>, pub absent: Vec<Vec<u8>>, pub nbucket: u32, pub nbloom: u32, pub shift: u32, pub elf64: bool, pub little: bool, pub corrupt: Option<(bool, usize, u8)> }
+
+fn elf_hash(name: &[u8]) -> u32 { let mut h: u32 = 0; for &c in name { h = (h << 4).wrapping_add(c as u32); let g = h & 0xf000_0000; if g != 0 { h ^= g >> 24; } h &= !g; } h }
+fn djb2(name: &[u8]) -> u32 { let mut h: u32 = 5381; for &c in name { h = h.wrapping_mul(33).wrapping_add(c as u32); } h }
+fn w16(v: &mut Vec<u8>, little: bool, x: u16) { if little { v.extend_from_slice(&x.to_le_bytes()) } else { v.extend_from_slice(&x.to_be_bytes()) } }
+fn w32(v: &mut Vec<u8>, little: bool, x: u32) { if little { v.extend_from_slice(&x.to_le_bytes()) } else { v.extend_from_slice(&x.to_be_bytes()) } }
+fn w64(v: &mut Vec<u8>, little: bool, x: u64) { if little { v.extend_from_slice(&x.to_le_bytes()) } else { v.extend_from_slice(&x.to_be_bytes()) } }
+
+/// C11/C12 second sentence, against the real code: tables BUILT per the gABI / the GNU format description for a symbol table
+/// (an independent builder) -- lookup finds every symbol by name and returns None for absent names; with one corrupted byte
+/// in the hash section the lookup stays sound (a returned symbol is the entry at the returned index and carries the name)
+pub fn check_hash_tables(c: &HashCase) -> Result<(), String> {
+    use elf::hash::{GnuHashTable, SysVHashTable};
+    let (l, class) = (c.little, if c.elf64 { Class::ELF64 } else { Class::ELF32 });
+    let e = if l { AnyEndian::Little } else { AnyEndian::Big };
+    // string table and symbol table (symbol 0 is the null symbol)
+    let mut strs = vec![0u8]; let mut offs = vec![0u32];
+    for n in c.names.iter() { offs.push(strs.len() as u32); strs.extend_from_slice(n); strs.push(0); }
+    let nsym = c.names.len() + 1;
+    // GNU: hashed symbols must be sorted by bucket; keep one ordering for both tables
+    let nb = c.nbucket.max(1);
+    let mut order: Vec<usize> = (1..nsym).collect();
+    order.sort_by_key(|&i| djb2(&c.names[i - 1]) % nb);
+    let name_of = |k: usize| -> &[u8] { if k == 0 { &[] } else { &c.names[order[k - 1] - 1] } };    // symbol k of the emitted table
+    let mut symtab = Vec::new();
+    for k in 0..nsym {
+        let st_name = if k == 0 { 0 } else { offs[order[k - 1]] };
+        if c.elf64 { w32(&mut symtab, l, st_name); symtab.push(0x12); symtab.push(0); w16(&mut symtab, l, 1); w64(&mut symtab, l, 0x1000 + k as u64); w64(&mut symtab, l, 8); }
+        else { w32(&mut symtab, l, st_name); w32(&mut symtab, l, 0x1000 + k as u32); w32(&mut symtab, l, 8); symtab.push(0x12); symtab.push(0); w16(&mut symtab, l, 1); }
+    }
+    // ---- SysV: nbucket, nchain, bucket[], chain[]; chain[i] links the symbols of a bucket, 0 ends it
+    let mut buckets = vec![0u32; nb as usize]; let mut chains = vec![0u32; nsym];
+    for k in 1..nsym { let b = (elf_hash(name_of(k)) % nb) as usize; chains[k] = buckets[b]; buckets[b] = k as u32; }
+    let mut sysv = Vec::new(); w32(&mut sysv, l, nb); w32(&mut sysv, l, nsym as u32); for x in buckets.iter() { w32(&mut sysv, l, *x); } for x in chains.iter() { w32(&mut sysv, l, *x); }
+    // ---- GNU: nbucket, symoffset, bloom_size, bloom_shift, bloom[], buckets[], chain[]
+    let symoff = 1usize; let nbloom = c.nbloom.max(1); let bits: u32 = if c.elf64 { 64 } else { 32 };
+    let mut bloom = vec![0u64; nbloom as usize]; let mut gb = vec![0u32; nb as usize]; let mut gc = vec![0u32; nsym - symoff];
+    for k in symoff..nsym {
+        let h = djb2(name_of(k)); let b = (h % nb) as usize;
+        bloom[((h / bits) % nbloom) as usize] |= (1u64 << (h % bits)) | (1u64 << ((h >> c.shift) % bits));
+        if gb[b] == 0 { gb[b] = k as u32; }
+        let last = k + 1 == nsym || djb2(name_of(k + 1)) % nb != h % nb;
+        gc[k - symoff] = (h & !1) | (last as u32);
+    }
+    let mut gnu = Vec::new(); w32(&mut gnu, l, nb); w32(&mut gnu, l, symoff as u32); w32(&mut gnu, l, nbloom); w32(&mut gnu, l, c.shift);
+    for w in bloom.iter() { if c.elf64 { w64(&mut gnu, l, *w) } else { w32(&mut gnu, l, *w as u32) } }
+    for x in gb.iter() { w32(&mut gnu, l, *x); } for x in gc.iter() { w32(&mut gnu, l, *x); }
+    let well_formed = c.corrupt.is_none();
+    if let Some((in_gnu, pos, val)) = c.corrupt { let t = if in_gnu { &mut gnu } else { &mut sysv }; let p = pos % t.len(); t[p] ^= val | 1; }
+    let syms = elf::symbol::SymbolTable::<AnyEndian>::new(e, class, &symtab);
+    let st = elf::string_table::StringTable::new(&strs);
+    let check = |which: &str, r: Result<Option<(usize, elf::symbol::Symbol)>, elf::ParseError>, q: &[u8], present: bool| -> Result<(), String> {
+        match r {
+            Ok(Some((i, s))) => {
+                if i >= nsym || syms.get(i).ok().as_ref() != Some(&s) { return Err(format!("{}: find({:?}) returned index {} / a symbol that is not the table's entry at that index", which, q, i)); }
+                if st.get_raw(s.st_name as usize).ok() != Some(q) { return Err(format!("{}: find({:?}) returned symbol {} whose name is {:?}", which, q, i, st.get_raw(s.st_name as usize).ok())); }
+                Ok(())
+            }
+            Ok(None) => if well_formed && present { Err(format!("{}: a well-formed table (nbucket {}, {} symbols{}) does not find the present name {:?}", which, nb, nsym - 1, if which == "GNU" { format!(", bloom words {}, shift {}", nbloom, c.shift) } else { String::new() }, q)) } else { Ok(()) },
+            Err(x) => if well_formed { Err(format!("{}: lookup of {:?} in a well-formed table is Err({:?})", which, q, x)) } else { Ok(()) },
+        }
+    };
+    let sysv_t = SysVHashTable::new(e, class, &sysv); let gnu_t = GnuHashTable::new(e, class, &gnu);
+    if well_formed && (sysv_t.is_err() || gnu_t.is_err()) { return Err("a well-formed hash section is rejected by new()".into()); }
+    for (q, present) in c.names.iter().map(|n| (n, true)).chain(c.absent.iter().filter(|a| !c.names.contains(a)).map(|n| (n, false))) {
+        if let Ok(t) = &sysv_t { check("SysV", t.find(q, &syms, &st), q, present)?; }
+        if let Ok(t) = &gnu_t { check("GNU", t.find(q, &syms, &st), q, present)?; }
+    }
+    Ok(())
+}
+pub fn enumerate_hash(n: usize, seed: u64) -> Vec<HashCase> {
+    let mut r = Lcg(seed); let mut out = Vec::with_capacity(n);
+    for _ in 0..n {
+        let nn = r.next(9) as usize;
+        let mk = |r: &mut Lcg| -> Vec<u8> { let len = 1 + r.next(6) as usize; (0..len).map(|_| [b'a', b'b', b'_', b'Z', 0xe9, 0x80, b'1'][r.next(7) as usize]).collect() };
+        let mut names: Vec<Vec<u8>> = Vec::new();
+        for _ in 0..nn { let x = mk(&mut r); if r.next(6) == 0 && !names.is_empty() { let d = names[r.next(names.len() as u64) as usize].clone(); names.push(d); } else { names.push(x); } }
+        let absent: Vec<Vec<u8>> = (0..6).map(|_| mk(&mut r)).collect();
+        let corrupt = if r.next(3) == 0 { Some((r.next(2) == 0, r.next(4096) as usize, r.next(256) as u8)) } else { None };
+        out.push(HashCase { names, absent, nbucket: [1u32, 1, 2, 3, 5, 8][r.next(6) as usize], nbloom: [1u32, 1, 2, 4][r.next(4) as usize], shift: [5u32, 6, 26, 0, 31, 11][r.next(6) as usize], elf64: r.next(2) == 0, little: r.next(2) == 0, corrupt });
+    }
+    out
+}
+
+// ------------------------------------------------------------------------------------------------ C05 (slice parser)
+/// C05 over one file of the stream family: the header tables are exactly the entries the ELF header (and shdr[0]) declare,
+/// decoded independently here; opening fails iff a present table's entry size is wrong or the declared table does not fit
+pub fn check_c05_file(b: &[u8]) -> Result<(), String> {
+    if b.len() < 64 || b[..4] != [0x7f, b'E', b'L', b'F'] || b[4] != 2 || b[5] != 1 || b[6] != 1 { return Ok(()); }   // the family is ELF64/LE
+    let u16a = |o: usize| u16::from_le_bytes([b[o], b[o + 1]]) as u64; let u32a = |o: usize| u32::from_le_bytes([b[o], b[o + 1], b[o + 2], b[o + 3]]) as u64;
+    let u64a = |o: usize| u64::from_le_bytes([b[o], b[o + 1], b[o + 2], b[o + 3], b[o + 4], b[o + 5], b[o + 6], b[o + 7]]);
+    let (phoff, shoff, phentsize, phnum, shentsize, shnum) = (u64a(32), u64a(40), u16a(54), u16a(56), u16a(58), u16a(60));
+    let fits = |off: u64, n: u64, sz: u64| n.checked_mul(sz).and_then(|t| off.checked_add(t)).map_or(false, |e| e <= b.len() as u64);
+    // expected outcome per the property
+    let shdr0_ok = shoff != 0 && fits(shoff, 1, 64);
+    let want_sh: Result<Option<(u64, u64)>, ()> = if shoff == 0 { Ok(None) } else {
+        let n = if shnum == 0 { if !shdr0_ok { Err(()) } else { Ok(u64a(shoff as usize + 32)) } } else { Ok(shnum) };
+        match n { Err(()) => Err(()), Ok(n) => if shentsize != 64 || !fits(shoff, n, 64) { Err(()) } else { Ok(Some((shoff, n))) } } };
+    let want_ph: Result<Option<(u64, u64)>, ()> = if phoff == 0 { Ok(None) } else {
+        let n = if phnum == 0xffff { if !fits(shoff, 1, 64) { Err(()) } else { Ok(u32a(shoff as usize + 44)) } } else { Ok(phnum) };
+        match n { Err(()) => Err(()), Ok(n) => if phentsize != 56 || !fits(phoff, n, 56) { Err(()) } else { Ok(Some((phoff, n))) } } };
+    let r = ElfBytes::<AnyEndian>::minimal_parse(b);
+    match (&r, &want_sh, &want_ph) {
+        (Ok(e), Ok(sh), Ok(ph)) => {
+            let got_sh = e.section_headers().map(|t| t.len() as u64); let got_ph = e.segments().map(|t| t.len() as u64);
+            if got_sh != sh.map(|x| x.1) { return Err(format!("C05: section header table has {:?} entries, the header declares {:?} (e_shoff {}, e_shnum {}, shdr[0].sh_size rule)", got_sh, sh.map(|x| x.1), shoff, shnum)); }
+            if got_ph != ph.map(|x| x.1) { return Err(format!("C05: program header table has {:?} entries, the header declares {:?} (e_phoff {}, e_phnum {}, shdr[0].sh_info rule)", got_ph, ph.map(|x| x.1), phoff, phnum)); }
+            if let (Some(t), Some((off, n))) = (e.section_headers(), sh) { for i in 0..(*n).min(4) { let o = (*off + 64 * i) as usize; let h = t.get(i as usize).map_err(|_| format!("C05: section header {} unreadable", i))?;
+                if h.sh_name as u64 != u32a(o) || h.sh_type as u64 != u32a(o + 4) || h.sh_offset != u64a(o + 24) || h.sh_size != u64a(o + 32) || h.sh_link as u64 != u32a(o + 40) || h.sh_entsize != u64a(o + 56) { return Err(format!("C05: section header {} is not the entry at e_shoff + {}*64", i, i)); } } }
+            if let (Some(t), Some((off, n))) = (e.segments(), ph) { for i in 0..(*n).min(2) { let o = (*off + 56 * i) as usize; let h = t.get(i as usize).map_err(|_| format!("C05: program header {} unreadable", i))?;
+                if h.p_type as u64 != u32a(o) || h.p_offset != u64a(o + 8) || h.p_filesz != u64a(o + 32) { return Err(format!("C05: program header {} is not the entry at e_phoff + {}*56", i, i)); } } }
+            Ok(())
+        }
+        (Ok(_), _, _) => Err(format!("C05: the file opens although a declared header table has a wrong entry size or does not fit (shoff {} shnum {} shentsize {}; phoff {} phnum {} phentsize {})", shoff, shnum, shentsize, phoff, phnum, phentsize)),
+        (Err(x), Ok(_), Ok(_)) => Err(format!("C05: opening fails with {:?} although both declared tables have the right entry size and fit in the {}-byte file", x, b.len())),
+        _ => Ok(()),
+    }
+}
